@@ -36,3 +36,24 @@ Proof. repeat split; vm_compute; reflexivity. Qed.
 Theorem C14_extension_state_is_reset : forall f, reset_flags_model f = clean.
 Proof. exact reset_establishes_clean. Qed.
 Print Assumptions C14_extension_state_is_reset.
+
+(* ------------------------------------------------------------------ the counter's ONLY influence is a renaming (proofs/HShift.v)
+   For EVERY configuration, every start value n of the hybrid counter (= every compilation history, since the counter is the
+   only holder field that survives reset) and every program that does not itself spell an identifier h_tmp<digits>: the whole
+   transformer gives the same verdict (same error message) and, when it accepts, the same effect with h_tmp<k> renamed to
+   h_tmp<k+n>, the same leftover/dropped facts, and a counter advanced by the same amount.  The side condition is necessary
+   (htmp_ident_refuted; replayed on the real compiler: D33); the bound n + #hybrids <= 10^40 is an artefact of the model's
+   decimal printer. *)
+From RZ.model Require Import Lower.
+From RZ.gen Require Import Resources.
+From RZ.proofs Require Import HShift.
+Theorem C14_counter_shift_is_a_renaming : forall cfg n prog,
+  no_htmp_ident prog = true -> (n + hyb_bound prog <= LIM)%N ->
+  tlower_info (set_hstart cfg n) prog = rres n (tlower_info (set_hstart cfg 0) prog).
+Proof. exact hshift_tlower_info. Qed.
+Print Assumptions C14_counter_shift_is_a_renaming.
+Theorem C14_history_independent_model : forall h p,
+  no_htmp_ident p = true -> (h + hyb_bound p <= LIM)%N ->
+  tlower_info (cfg_insn h) p = rres h (tlower_info (cfg_insn 0) p).
+Proof. exact C14_history_independent. Qed.
+Print Assumptions C14_history_independent_model.
